@@ -35,6 +35,36 @@ inductive QNode where
   | packed (w : SE) (es : List LPEntry) -- container 2: a listpack (wrapped as a string)
   deriving Repr, Inhabited
 
+/-- one item of a module value / module aux payload (rdb.c RDB_MODULE_OPCODE_*) -/
+inductive ModOp where
+  | sint (n : Nat)          -- opcode 1 + rdbSaveLen
+  | uint (n : Nat)          -- opcode 2 + rdbSaveLen
+  | float (b : Bytes)       -- opcode 3 + 4 bytes
+  | double (b : Bytes)      -- opcode 4 + 8 bytes
+  | str (s : SE)            -- opcode 5 + string
+  deriving Repr, Inhabited
+
+def ModOp.enc : ModOp → Bytes
+  | .sint n => saveLen 1 ++ saveLen n
+  | .uint n => saveLen 2 ++ saveLen n
+  | .float b => saveLen 3 ++ b
+  | .double b => saveLen 4 ++ b
+  | .str s => saveLen 5 ++ s.enc
+
+def ModOp.wf : ModOp → Prop
+  | .sint n => n < 2 ^ 64
+  | .uint n => n < 2 ^ 64
+  | .float b => b.length = 4
+  | .double b => b.length = 8
+  | .str s => s.wf
+
+instance ModOp.decWf (o : ModOp) : Decidable o.wf := by
+  cases o <;> unfold ModOp.wf <;> exact inferInstance
+
+/-- module id, items, EOF opcode -/
+def modulePayload (id : Nat) (ops : List ModOp) : Bytes :=
+  saveLen id ++ ops.flatMap ModOp.enc ++ saveLen 0
+
 /-- one value with its on-disk encoding. A "wrapper" `w : SE` is the string
     object the blob (ziplist, listpack, intset, zipmap) is saved as — raw or
     LZF-compressed; well-formedness demands `w.val = blob`. -/
@@ -56,6 +86,7 @@ inductive ObjE where
   | hashZiplist (w : SE) (zl : ZL)                             -- type 13
   | hashListpack (w : SE) (es : List LPEntry)                  -- type 16
   | stream (s : StreamE)                                       -- types 15, 19, 21, 26
+  | module2 (id : Nat) (ops : List ModOp)                      -- type 7 (opaque: RESTORE only)
   | raw (t : UInt8) (bytes : Bytes)                            -- anything else, verbatim
   deriving Repr, Inhabited
 
@@ -65,6 +96,7 @@ def ObjE.rtype : ObjE → UInt8
   | .zset1 .. => 3 | .zset2 .. => 5 | .zsetZiplist .. => 12 | .zsetListpack .. => 17
   | .hashTable .. => 4 | .hashZipmap .. => 9 | .hashZiplist .. => 13 | .hashListpack .. => 16
   | .stream s => s.rtype
+  | .module2 .. => 7
   | .raw t _ => t
 
 def QNode.enc : QNode → Bytes
@@ -91,6 +123,7 @@ def ObjE.ser : ObjE → Bytes
   | .hashZiplist w _ => w.enc
   | .hashListpack w _ => w.enc
   | .stream s => s.ser
+  | .module2 id ops => modulePayload id ops
   | .raw _ b => b
 
 /-! ## well-formedness: what makes a description denote a real Redis value -/
@@ -132,6 +165,7 @@ def ObjE.wf : ObjE → Prop
   | .hashZiplist w zl => w.wf ∧ w.val = zl.blob ∧ zl.wf ∧ zl.entries.length % 2 = 0
   | .hashListpack w es => w.wf ∧ w.val = lpBlob es ∧ lpWf es ∧ es.length % 2 = 0
   | .stream s => s.wf
+  | .module2 id ops => id < 2 ^ 64 ∧ ∀ o ∈ ops, o.wf
   | .raw _ _ => True
 
 instance ObjE.decWf (o : ObjE) : Decidable o.wf := by
@@ -175,6 +209,7 @@ inductive Item where
   | resizeDb (f1 : LenForm) (a : Nat) (f2 : LenForm) (b : Nat)
   | slotInfo (a b c : Nat)
   | function (code : SE)
+  | moduleAux (id : Nat) (ops : List ModOp)
   | key (k : KeyE)
   deriving Repr, Inhabited
 
@@ -184,6 +219,7 @@ def Item.enc : Item → Bytes
   | .resizeDb f1 a f2 b => 0xFB :: (encLen f1 a ++ encLen f2 b)
   | .slotInfo a b c => 0xF4 :: (encLen (minForm a) a ++ encLen (minForm b) b ++ encLen (minForm c) c)
   | .function code => 0xF5 :: code.enc
+  | .moduleAux id ops => 0xF7 :: modulePayload id ops
   | .key k => k.enc
 
 def KeyE.wf (k : KeyE) : Prop :=
@@ -202,6 +238,7 @@ def Item.wf : Item → Prop
   | .resizeDb f1 a f2 b => f1.fits a ∧ f2.fits b
   | .slotInfo a b c => a < 2 ^ 64 ∧ b < 2 ^ 64 ∧ c < 2 ^ 64
   | .function code => code.wf
+  | .moduleAux id ops => id < 2 ^ 64 ∧ ∀ o ∈ ops, o.wf
   | .key k => k.wf
 
 instance Item.decWf (i : Item) : Decidable i.wf := by
@@ -237,5 +274,14 @@ def rdbFile (f : FileE) : Bytes :=
     | .good => le64 (crc64Spec body).toNat
     | .zero => le64 0
     | .bad => le64 ((crc64Spec body).toNat + 1))
+
+/-- `rdbFile` with the table-driven CRC (what the driver runs; equal to
+    `rdbFile` by `crc64_tab_eq_jones`, see Proofs/Rdb/Frame.lean) -/
+def rdbFileFast (f : FileE) : Bytes :=
+  let body := f.body
+  body ++ (match f.footer with
+    | .good => le64 (crc64Tab body).toNat
+    | .zero => le64 0
+    | .bad => le64 ((crc64Tab body).toNat + 1))
 
 end GunYu.Rdb
